@@ -1125,7 +1125,9 @@ func main() {
 			pats = append(pats, sp(p))
 		}
 		lens := []*int{nil, ip(-1), ip(0), ip(1), ip(7)}
-		sides := []*string{nil, sp("left"), sp("right"), sp("middle"), sp("")}
+		// (other letter cases of left / right are not the documented spellings: a loader that accepts them
+		// must not treat them as the other side)
+		sides := []*string{nil, sp("left"), sp("right"), sp("middle"), sp(""), sp("Left"), sp("RIGHT")}
 		dts := []string{"", "int32"}
 		flav := []bool{false}
 		if r.Thorough() {
